@@ -65,8 +65,15 @@ def py_exec(req):
 def py_traverse(c, req):
     """run dfs/bfs with logging hooks; the log has the model's event shape"""
     log = []
+    labels = list(c.gates)
+
+    def peek(st):
+        # a hook may look up the state of any gate (e.g. "are all operands visited?"); looking must not change anything
+        if req.get('peek'):
+            for l in labels:
+                st[l]
     kw = dict(inverse=req['inverse'], topsort_unvisited=req['topsort_unvisited'],
-              on_enter_hook=lambda g, st: log.append(['enter', g.label]),
+              on_enter_hook=lambda g, st: (peek(st), log.append(['enter', g.label])),
               on_discover_hook=lambda g, st: log.append(['discover', g.label, st[g.label].name]),
               unvisited_hook=lambda g, st: log.append(['unvisited', g.label]),
               on_traversal_end_hook=lambda st: log.append(['end']))
